@@ -35,6 +35,9 @@ def configs():
     c.append(('ctx', D(ctx=SPECIALS), BASE + ['~', '-', '`', "'", '&']))
     # a database that registers a specials specification with EMPTY characters (a placeholder): it never matches
     c.append(('ctx-emptyspecials', D(ctx=['', '~', '--']), ['a', '~', '-', ' ', '\n', '\\', '$', '%']))
+    # a database with fallback specifications for unknown macros / environments / SPECIALS (a placeholder with empty
+    # characters): the tokenizer looks for declared sequences only
+    c.append(('ctx-unknown-fallback', D(ctx=[T.UNKNOWN_FALLBACK, '~', '--']), ['a', '~', '-', ' ', '\n', '\\', '$', '%']))
     c.append(('ctx-par', D(ctx=SPECIALS + ['\n\n']), ['a', ' ', '\n', '\\', '%', '-', '\t']))
     c.append(('ctx-par-nodnp', D(ctx=SPECIALS + ['\n\n'], enable_double_newline_paragraphs=False), ['a', ' ', '\n', '\\', '%']))
     c.append(('ctx-nospecials', D(ctx=SPECIALS, enable_specials=False), ['a', '~', '-', '\n', ' ']))
